@@ -123,6 +123,8 @@ type Sim struct {
 	Votes   []*voteInfo
 	badges  []*badgeInfo
 	epochT0 time.Time // block time of the last epoch start
+	lastTx  *TxRes    // the tx being / last processed (for classification in monitors)
+	t0      time.Time // block time when the world was created
 }
 
 // MaxEpochSpan bounds the block time one epoch may span in generated histories.
@@ -159,6 +161,7 @@ func NewSim(t *testing.T, seed int64, prof *Profile, mons ...Monitor) *Sim {
 	for s.TS.BlockHeight() < target {
 		s.advanceRaw(0)
 	}
+	s.t0 = s.TS.Ctx.BlockTime()
 	return s
 }
 
@@ -291,6 +294,7 @@ func (s *Sim) Tx(name, desc string, msg sdk.Msg, f func(ctx context.Context) (an
 	} else {
 		s.logf("%s ERR(%s) %s", name, oneline(res.Err.Error()), desc)
 	}
+	s.lastTx = res
 	for _, m := range s.Mons {
 		m.AfterTx(s, res)
 	}
